@@ -875,6 +875,22 @@ pub fn parent_main(prop: &dyn Prop, tier: Tier, seed: u64, workers_req: usize) -
         "notes": total.notes,
         "inconclusive": inconclusive,
     });
+    if let Ok(fp) = std::env::var("BVERIF_FUZZ_STATS") {
+        if let Some(fz) = std::fs::read(&fp).ok().and_then(|b| serde_json::from_slice::<Value>(&b).ok()) {
+            if let Some(v) = fz["violations"].as_array() {
+                for line in v {
+                    if let Some(l) = line.as_str() {
+                        let path = l.split("replay=").nth(1).unwrap_or("").to_string();
+                        violations.push((path, "libFuzzer campaign: the in-target oracle failed".to_string()));
+                    }
+                }
+            }
+            if fz["crashing_processes"].as_u64().unwrap_or(0) > 0 && fz["violations"].as_array().map(|a| a.is_empty()).unwrap_or(true) {
+                violations.push((format!("{}/target/fuzzwork/{}", VERIF_ROOT, id), "libFuzzer campaign: a fuzz process crashed (see the artifact directory)".to_string()));
+            }
+            coverage["fuzz"] = fz;
+        }
+    }
     if !total.exhaustive.is_empty() {
         coverage["exhaustive"] = json!(false);
         coverage["explanation"] = json!("exhaustive_subdomains lists the finite sub-domains that were enumerated completely (name -> number of cases); the run as a whole also contains sampled cases, hence exhaustive=false");
